@@ -56,7 +56,30 @@ fn main() {
         }
     };
     let sid: &'static str = Box::leak(id.clone().into_boxed_str());
+    // resource caps of the machinery itself (an exploration that runs away on changed code must end
+    // as a machinery exit, never as a verdict and never by exhausting the machine): address space
+    // 40 GiB (VERIF_MEM_GB), wall clock 20 min quick / 6 h thorough (VERIF_WALL_S)
+    let mem_gb: u64 = std::env::var("VERIF_MEM_GB").ok().and_then(|s| s.parse().ok()).unwrap_or(40);
+    unsafe {
+        let lim = libc::rlimit { rlim_cur: mem_gb << 30, rlim_max: mem_gb << 30 };
+        libc::setrlimit(libc::RLIMIT_AS, &lim);
+    }
+    let wall_s: u64 = std::env::var("VERIF_WALL_S").ok().and_then(|s| s.parse().ok()).unwrap_or(match tier {
+        Tier::Quick => 1200,
+        Tier::Thorough => 6 * 3600,
+    });
     let mut out = common::guard::isolate_io();
+    {
+        let sid2 = sid;
+        std::thread::spawn(move || {
+            std::thread::sleep(std::time::Duration::from_secs(wall_s));
+            let msg = format!("MC: MACHINERY-ERROR property={} wall-clock cap of {} s reached; no verdict\n", sid2, wall_s);
+            unsafe {
+                libc::write(common::guard::REAL_STDOUT.load(std::sync::atomic::Ordering::SeqCst), msg.as_ptr() as *const libc::c_void, msg.len());
+                libc::_exit(2);
+            }
+        });
+    }
 
     let code = if let Some(key) = replay_key {
         // replay: run the deterministic enumeration twice; both runs must agree
